@@ -467,7 +467,7 @@ func (h *c17Run) search(rq requestSpec) error {
 	if err := h.refresh(); err != nil {
 		return err
 	}
-	res, err := h.cl.nodes[h.entry].SearchPoints(h.col, rq.model())
+	res, err := c17SafeSearch(h.cl.nodes[h.entry], h.col, rq.model())
 	out := "(QError 9)"
 	if err == nil {
 		var perr error
@@ -634,7 +634,7 @@ func (h *c17Run) passThrough() error {
 		return nil
 	}
 	rq := requestSpec{q: querySpec{kind: "or", subs: []querySpec{flat, h.allQuery()}}, limit: 100}
-	res, err := h.cl.nodes[h.entry].SearchPoints(h.col, rq.model())
+	res, err := c17SafeSearch(h.cl.nodes[h.entry], h.col, rq.model())
 	out := "(QError 9)"
 	if err == nil {
 		var perr error
@@ -961,6 +961,17 @@ func c17History(seed uint64, idx int, big bool) (res c17Hist, err error) {
 	res.kinds = h.kinds
 	res.samples = h.samples
 	return res, nil
+}
+
+// c17SafeSearch: a panic of ClusterNode.SearchPoints on the caller's goroutine (the HTTP layer turns it into a 500) is an
+// error answer of the search, not the end of this harness
+func c17SafeSearch(nd *cluster.ClusterNode, col models.Collection, sr models.SearchRequest) (res []models.SearchResult, err error) {
+	defer func() {
+		if r := recover(); r != nil {
+			res, err = nil, fmt.Errorf("panic: %v", r)
+		}
+	}()
+	return nd.SearchPoints(col, sr)
 }
 
 // c17Unexpected classifies the error of a request the harness makes around the recorded part of a history (0: not one of them)
